@@ -14,8 +14,8 @@ import translator
 from common import fhex, zlit, coq_list
 
 HEAD = ("From Coq Require Import ZArith List String PrimFloat. Import ListNotations.\nFrom Snow Require Import Topology Layer GenConstants ConfigCheck.\nOpen Scope string_scope.\n"
-        "Definition lcases := %s.\nEval vm_compute in bad_cases layer_case_ok lcases.\n"
-        "Definition ccases := %s.\nEval vm_compute in bad_cases consts_case_ok ccases.\n")
+        "Definition lcases : list (cfg * cfg * option cfg * list string) := %s.\nEval vm_compute in bad_cases layer_case_ok lcases.\n"
+        "Definition ccases : list (leaves float * enums * option (list (string * float) * list string)) := %s.\nEval vm_compute in bad_cases consts_case_ok ccases.\n")
 
 
 def default_cfg():
